@@ -1,5 +1,6 @@
 #!/usr/bin/env python3
 import ast
+import io
 import os
 from collections import defaultdict
 from typing import Dict, Tuple, Union
@@ -136,7 +137,8 @@ MappingType = Dict[str, Dict[str, Tuple[str, str]]]
 
 
 def rewrite_imports(source_code: str, mapping: MappingType) -> Union[str, None]:
-    lines = source_code.splitlines(keepends=True)
+    # split where the Python tokenizer does (\n, \r\n, \r) - not at \f, \x85, \u2028, ...
+    lines = io.StringIO(source_code, newline='').readlines()
     tree = ast.parse(source_code)
     replacements = []
 
